@@ -100,6 +100,15 @@ func c05Scenarios(tier string) []*Scenario {
 				add(tr, "", true, RPC{Kind: "bd", Client: []string{"S0", "S1", "S2", "C", "R*"}, Handler: h}, "")
 			}
 		}
+		// a goroutine the handler left behind keeps using the stream after the handler returned:
+		// every such operation returns (an error), none blocks or panics
+		if tr == "inproc" {
+			for _, h2 := range [][]string{{"wd", "H:x"}, {"wd", "h:x", "t:y"}, {"wd", "s1"}, {"wd", "r"}, {"wd", "H:x", "s1", "r"}} {
+				for _, h1 := range [][]string{{"go", "ret:ok"}, {"go", "s0", "ret:ok"}, {"go", "r", "ret:st:5"}} {
+					add(tr, "", false, RPC{Kind: "bd", Client: []string{"S0", "C", "R*", "T"}, Handler: h1, Handler2: h2}, "")
+				}
+			}
+		}
 		// Header() parked while the context ends before any response header, and issued afterwards
 		add(tr, "cancel", false, RPC{Kind: "ss", Client: []string{"S0", "C", "R*", "H"}, Client2: []string{"H"}, Handler: []string{"r", "w", "ret:ctx"}}, "")
 		add(tr, "cancel", false, RPC{Kind: "bd", Client: []string{"S0", "C", "H", "R*"}, Handler: []string{"r*", "w", "ret:ctx"}}, "")
